@@ -179,11 +179,13 @@ def check(repo, run, tier):
     g(r5, repo, run)
     g(unitrules.list_prefilter_guard, repo, run, 'C02.R3')
     g(unitrules.list_merge_keys_table, repo, run, 'C02.R5')
+    g(unitrules.child_lookup_exact, repo, run, 'C02.R5')
     g.done()
 
 
 def mutants(repo):
     return [
+        Mutant('child-lookup-tolerant-of-spelling', lambda r: in_func(r, 'ComposedNode.ayns.get_child', "            return self._children.get(name, default)", "            if name not in self._children and isinstance(name, str) and name.isdigit():\n                name = int(name)\n            return self._children.get(name, default)"), ['C02.R5']),
         Mutant('key-equal-to-length-accepted', lambda r: in_func(r, 'ConfigList._validate_index', "(abs(index) > len(self) or index == len(self)) and strict", "abs(index) > len(self) and strict"), ['C02.R5']),
         Mutant('only-a-truthy-stray-key-is-an-error', lambda r: in_func(r, 'ConfigList.ayns.on_merge_impl', "            if _missing_keys:", "            if _missing_keys and _missing_keys[0]:"), ['C02.R5']),
         Mutant('prefilter-guard-negated', lambda r: in_func(r, 'ConfigList.ayns.on_merge_impl', "if isinstance(other, ComposedNode):", "if not isinstance(other, ComposedNode):"), ['C02.R3']),
